@@ -24,8 +24,13 @@ func init() {
 		return append(cs, "next"), all
 	}
 	libExt["encoding/json.Marshal"] = func(f *Frame, c *ssa.CallCommon, args []Val, pos token.Pos) ([]Val, bool) {
-		f.vc.trust("encoding/json.Marshal has no effect on the modelled heap; result bytes unconstrained")
-		return f.freshResults(c, "json_Marshal"), true
+		f.vc.trust("encoding/json.Marshal has no effect on the modelled heap; the result is a newly allocated slice with unconstrained bytes")
+		r := f.vc.allocRef(f.cur, "json_ref", f.guard)
+		res := f.freshResults(c, "json_Marshal")
+		if len(res) == 2 {
+			f.vc.assume(implies(eq(res[1].T, "inil"), "(and (= (s-ref "+res[0].T+") "+r+") (= (s-off "+res[0].T+") 0))"))
+		}
+		return res, true
 	}
 	libExtWrites["encoding/json.Marshal"] = func(f *Frame, c *ssa.CallCommon) ([]string, bool) { return []string{"next"}, false }
 }
